@@ -299,6 +299,43 @@ def _properties_part(e, node, cls, kw, fields, defaults, sort_keys, scenario, fr
             e.fail("to-properties-dict-mismatch", scenario=scenario)
 
 
+_MI_CACHE: dict[str, Any] = {}
+
+
+def mi_harness(e):
+    """Multiple inheritance, empty-bodied subclasses and subclasses that only re-declare inherited
+    fields, on freshly created classes; the class used first is a selector."""
+    reset_all()
+    order = e.pick([["MNamed"], ["MBodied"], ["MNamed", "MBodied"], ["MFunc"], ["MOverride"], ["MEmpty"], []], "classes_used_first")
+    # fresh classes per value of the selector; every path uses `order` first and then all classes
+    # in a fixed order (idempotent), so paths are independent of each other
+    if _MI_CACHE.get("order") != tuple(order):
+        tag, C = G.make_mi_classes()
+        _MI_CACHE.clear()
+        _MI_CACHE.update(order=tuple(order), tag=tag, C=C)
+    tag, C = _MI_CACHE["tag"], _MI_CACHE["C"]
+    counter = [0]
+    for k in list(order) + sorted(C):
+        inst0 = C[k](**_values(G.MI_FIELDS[k], 1, counter))
+        list(inst0.get_child_nodes()); list(inst0.iter_child_fields()); list(inst0.get_properties()); inst0.children  # noqa: E702
+    target = e.pick(["MFunc", "MEmpty", "MOverride", "MNamed", "MBodied"], "queried_class")
+    fields = G.MI_FIELDS[target]
+    part = e.pick(["children", "properties"], "part")
+    variant = e.choice(3, "instance_variant") if part == "children" else 1
+    kw = _values(fields, variant, counter)
+    cls = C[target]
+    node = cls(**kw)
+    defaults = {"label": 5 if target == "MOverride" else 0, "flag": 1}
+    scenario: dict[str, Any] = {"classes": "MNamed(name_kid, label) MBodied(body, flag!compare) MFunc(MNamed, MBodied) MEmpty(MNamed) MOverride(MNamed: label!compare, name_kid)", "used_first": order, "queried_class": target, "variant": variant, "part": part}
+    sort_keys = e.bool("sort_keys")
+    if part == "children":
+        _children_part(e, node, cls, kw, fields, variant, sort_keys, scenario)
+    else:
+        _properties_part(e, node, cls, kw, fields, defaults, sort_keys, scenario, False)
+    e.distinct((tuple(order), target, part, variant, len(e._decided) if hasattr(e, "_decided") else 0))
+    return scenario
+
+
 def _decided(e, b) -> bool:
     if isinstance(b, bool):
         return True
@@ -316,6 +353,7 @@ def spec(tier: str, seed: int) -> Spec:
     fchunk = 6
     for k in range(0, len(fresh), fchunk):
         fams.append(Family(f"fresh[{k}:{k+fchunk}]", make_harness(fresh[k : k + fchunk], fresh=True), variables="as above with classes re-created per path; selector: which class of the hierarchy is used first"))
+    fams.append(Family("multiple-inheritance", mi_harness, variables="lazy flags; selectors: classes used first, queried class, part, variant (fresh classes with multiple inheritance, empty bodies, override-only subclasses)"))
     return Spec(
         families=fams,
         functions=FUNCTIONS,
